@@ -729,3 +729,149 @@ pub fn drive_codec(t: &mut Tracer, tier: &str, seed: u64) {
     asn1_enc_event(t, &sess(), &key, &m, vec![], "alt-flags", true, "c1c3c2");
     asn1_enc_event(t, &sess(), &key, &m, vec![], "alt-flags", false, "c1c2c3");
 }
+
+// ---------------------------------------------------------------- C11 group law / field arithmetic
+fn ec_event(t: &mut Tracer, sess: &str, op: &str, mut f: Value, out: Outcome<Point>) {
+    f["prop"] = json!("C11");
+    f["out"] = match out.ok() { Some(p) => pt_json(p), None => pt_json(&Point::zero()) };
+    f["outcome"] = json!(out.name()); f["detail"] = json!(out.detail());
+    t.emit(sess, op, f);
+}
+fn gp<T>(f: impl FnOnce() -> T) -> Outcome<T> { crate::trace::guard_plain(f) }
+
+fn boundary_values(modulus_hex: &str, rng: &mut Rng, nrand: usize) -> Vec<(Vec<u8>, &'static str)> {
+    let m = hexb(modulus_hex);
+    let mut v: Vec<(Vec<u8>, &'static str)> = vec![];
+    for d in 0..=4i64 { v.push((be_add_small(&vec![0u8; 32], d), "small")); }
+    for d in 1..=4i64 { v.push((be_add_small(&m, -d), "near-modulus")); }
+    // 2^256 - m +- 4
+    let mut neg = vec![0u8; 32];
+    let mut borrow = 0i32;
+    for k in (0..32).rev() { let x = 0i32 - m[k] as i32 - borrow; neg[k] = x.rem_euclid(256) as u8; borrow = if x < 0 { 1 } else { 0 }; }
+    for d in -4..=4i64 { v.push((be_add_small(&neg, d), "near-2^256-m")); }
+    // boundary limbs
+    let limbs: [u64; 5] = [0, 1, 1 << 32, 1 << 63, u64::MAX];
+    for a in 0..5 { for b in 0..5 {
+        let x: U256 = [limbs[a], limbs[b], limbs[(a + b) % 5], limbs[(a * 2 + b) % 5] >> 1];
+        v.push((u256_be(&x), "boundary-limbs"));
+    } }
+    for _ in 0..nrand { let mut x = rng.bytes(32); x[0] &= 0x7f; v.push((x, "random")); }
+    // keep canonical operands only (the property speaks about canonical operands)
+    v.into_iter().filter(|(x, _)| x.as_slice() < m.as_slice()).collect()
+}
+
+pub fn drive_ec(t: &mut Tracer, tier: &str, seed: u64) {
+    let thorough = tier == "thorough";
+    let mut rng = Rng(seed ^ 0x5211);
+    let mut n = 0u64;
+    let mut sess = || { n += 1; format!("sm2ec/{}", n) };
+    let nhex = hexb(N_HEX);
+    let rk = |rng: &mut Rng| { let mut d = rng.bytes(32); d[0] &= 0x7f; be_u256(&d) };
+    let lam = |rng: &mut Rng| { let mut l = rng.bytes(32); l[0] &= 0x7f; l[31] |= 1; verif::fp_to_mont(&be_u256(&l)) };
+    // ---- points: affine G, Jacobian multiples, re-randomised forms ----
+    let g = g_mul(&[1, 0, 0, 0]);
+    let mut pts: Vec<Point> = vec![g, g_mul(&[2, 0, 0, 0]), g_mul(&[3, 0, 0, 0])];
+    for _ in 0..(if thorough { 12 } else { 3 }) { pts.push(g_mul(&rk(&mut rng))); }
+    let inf = Point::zero();
+    for (i, p) in pts.clone().iter().enumerate() {
+        let p2 = rerandomize(p, &lam(&mut rng));
+        let np = p.neg();
+        let np2 = rerandomize(&np, &lam(&mut rng));
+        let q = pts[(i + 1) % pts.len()];
+        let cases: Vec<(Point, Point)> = vec![(*p, *p), (*p, p2), (p2, *p), (*p, np), (*p, np2), (np2, *p), (inf, *p), (*p, inf), (inf, inf), (*p, q), (p2, rerandomize(&q, &lam(&mut rng)))];
+        for (a, b) in cases {
+            ec_event(t, &sess(), "ec.add", json!({"p": pt_json(&a), "q": pt_json(&b)}), gp(|| a.point_add(&b)));
+        }
+        for a in [*p, p2, inf] {
+            ec_event(t, &sess(), "ec.dbl", json!({"p": pt_json(&a)}), gp(|| a.point_dbl()));
+            ec_event(t, &sess(), "ec.neg", json!({"p": pt_json(&a)}), gp(|| a.neg()));
+        }
+        ec_event(t, &sess(), "ec.affine", json!({"p": pt_json(&p2)}), gp(|| p2.to_affine_point()));
+        // validity predicates on valid and invalid representations
+        let mut off = p2; off.y[0] ^= 1;
+        let mut off2 = *p; off2.x[3] ^= 1 << 40;
+        for a in [*p, p2, inf, off, off2] {
+            let o = gp(|| a.is_valid());
+            t.emit(&sess(), "ec.valid", json!({"prop": "C11", "p": pt_json(&a), "valid": if o.ok() == Some(&true) { 1 } else { 0 }, "outcome": o.name(), "detail": o.detail()}));
+        }
+    }
+    // ---- scalar multiplication: special and random scalars, affine and Jacobian base points ----
+    let mut scalars: Vec<Vec<u8>> = vec![vec![0u8; 32], be_add_small(&vec![0u8; 32], 1), be_add_small(&vec![0u8; 32], 2), be_add_small(&nhex, -1), nhex.clone(), vec![0xffu8; 32]];
+    for d in 1..=40i64 { if thorough || d % 4 == 2 || d == 1 { scalars.push(be_add_small(&nhex, d)); } }
+    for _ in 0..(if thorough { 40 } else { 6 }) { scalars.push(rng.bytes(32)); }
+    for (i, k) in scalars.iter().enumerate() {
+        let base = if i % 2 == 0 { pts[i % pts.len()].to_affine_point() } else { pts[i % pts.len()] };
+        let ku = be_u256(k);
+        ec_event(t, &sess(), "ec.smul", json!({"p": pt_json(&base), "k": bytes(k)}), gp(|| base.scalar_mul(&ku)));
+        let gb = g.to_affine_point();
+        ec_event(t, &sess(), "ec.smul", json!({"p": pt_json(&gb), "k": bytes(k)}), gp(|| gb.scalar_mul(&ku)));
+        ec_event(t, &sess(), "ec.gmul", json!({"k": bytes(k)}), gp(|| g_mul(&ku)));
+    }
+    // every single-byte scalar b * 256^i through the fixed-base multiplication (quick: a stride)
+    for i in 0..32usize {
+        for b in 1..=255u32 {
+            if !thorough && (b as usize * 7 + i) % 23 != 0 { continue; }
+            let mut k = vec![0u8; 32]; k[31 - i] = b as u8;
+            let ku = be_u256(&k);
+            ec_event(t, &sess(), "ec.gmul", json!({"k": bytes(&k)}), gp(|| g_mul(&ku)));
+        }
+    }
+    // ---- field arithmetic modulo p (stored representatives) and modulo n ----
+    let vals = boundary_values(P_HEX, &mut rng, if thorough { 30 } else { 6 });
+    for (i, (a, ca)) in vals.iter().enumerate() {
+        let au = be_u256(a);
+        for f in ["neg", "dbl", "tpl", "to_mont", "from_mont", "inv", "sqrt"] {
+            if !thorough && f == "inv" && i % 3 != 0 { continue; }
+            if f == "sqrt" {
+                let o = crate::trace::guard(|| verif::fp_sqrt(&au));
+                let ob = o.ok().map(|x| u256_be(x)).unwrap_or(vec![0u8; 32]);
+                t.emit(&sess(), "fp.op", json!({"prop": "C11", "f": f, "cls": ca, "a": bytes(a), "b": bytes(&[0u8; 32]), "out": bytes(&ob), "outcome": o.name(), "detail": o.detail()}));
+                continue;
+            }
+            let o = gp(|| match f { "neg" => verif::fp_neg(&au), "dbl" => verif::fp_double(&au), "tpl" => verif::fp_triple(&au), "to_mont" => verif::fp_to_mont(&au),
+                                     "from_mont" => verif::fp_from_mont(&au), _ => verif::fp_inv(&au) });
+            let ob = o.ok().map(|x| u256_be(x)).unwrap_or(vec![0u8; 32]);
+            t.emit(&sess(), "fp.op", json!({"prop": "C11", "f": f, "cls": ca, "a": bytes(a), "b": bytes(&[0u8; 32]), "out": bytes(&ob), "outcome": o.name(), "detail": o.detail()}));
+        }
+        for (j, (b, cb)) in vals.iter().enumerate() {
+            if !thorough && (i * 5 + j) % 7 != 0 { continue; }
+            let bu = be_u256(b);
+            for f in ["add", "sub", "mul"] {
+                let o = gp(|| match f { "add" => verif::fp_add(&au, &bu), "sub" => verif::fp_sub(&au, &bu), _ => verif::fp_mont_mul(&au, &bu) });
+                let ob = o.ok().map(|x| u256_be(x)).unwrap_or(vec![0u8; 32]);
+                let cls = if *ca == "random" && *cb == "random" { "random" } else if *ca == "random" { cb } else { ca };
+                t.emit(&sess(), "fp.op", json!({"prop": "C11", "f": f, "cls": cls, "a": bytes(a), "b": bytes(b), "out": bytes(&ob), "outcome": o.name(), "detail": o.detail()}));
+            }
+        }
+    }
+    let nvals = boundary_values(N_HEX, &mut rng, if thorough { 30 } else { 6 });
+    for (i, (a, ca)) in nvals.iter().enumerate() {
+        let au = be_u256(a);
+        for (j, (b, cb)) in nvals.iter().enumerate() {
+            if !thorough && (i * 3 + j) % 7 != 0 { continue; }
+            let bu = be_u256(b);
+            for f in ["add", "sub", "mul"] {
+                let o = gp(|| match f { "add" => verif::fn_add(&au, &bu), "sub" => verif::fn_sub(&au, &bu), _ => verif::fn_mul(&au, &bu) });
+                let ob = o.ok().map(|x| u256_be(x)).unwrap_or(vec![0u8; 32]);
+                let cls = if *ca == "random" { cb } else { ca };
+                t.emit(&sess(), "fn.op", json!({"prop": "C11", "f": f, "cls": cls, "a": bytes(a), "b": bytes(b), "out": bytes(&ob), "outcome": o.name(), "detail": o.detail()}));
+            }
+        }
+        if i % 4 == 0 {
+            // inversion as used by signing: a^(n-2)
+            let e = be_add_small(&nhex, -2);
+            let o = gp(|| verif::fn_pow(&au, &be_u256(&e)));
+            let ob = o.ok().map(|x| u256_be(x)).unwrap_or(vec![0u8; 32]);
+            t.emit(&sess(), "fn.op", json!({"prop": "C11", "f": "pow", "cls": ca, "a": bytes(a), "b": bytes(&e), "out": bytes(&ob), "outcome": o.name(), "detail": o.detail()}));
+        }
+    }
+    // ---- the fixed-base table: all 32 x 255 entries, one session (exhaustive in both tiers) ----
+    let ts = "sm2ec/table".to_string();
+    for row in 0..32usize {
+        for b in 1..=255usize {
+            let x = verif::table_entry(row, 2 * b - 2);
+            let y = verif::table_entry(row, 2 * b - 1);
+            t.emit(&ts, "ec.table", json!({"prop": "C11", "row": row, "b": b, "x": bytes(&u256_be(&x)), "y": bytes(&u256_be(&y))}));
+        }
+    }
+}
